@@ -350,3 +350,66 @@ Theorem C03_rdb_compiled_exists_closed : forall (sort : list point -> list point
     lists_store dbl db.
 Proof. exact rdb_compiled_exists_closed. Qed.
 Print Assumptions C03_rdb_compiled_exists_closed.
+
+(* ==================================================================================
+   C03 on the databases compiled from the TEXT of a data file (C09's line codec, the concrete
+   accumulators of Model/Accum.v, any C07 pipeline): FindMap is exact-name map, else nearest wildcard
+   map, over the file's M / 8 lines, for all three drivers; GetLocationByMap of the CDB driver is
+   longest-prefix match over the file's % lines (the RocksDB driver: C03_rdb_compiled_is_lpm_closed).
+   [declared_maps rs] / [declared_subnets rs m] (Spec/ClientLocation.v): the declarations read off the
+   parsed lines; [R_rdb] / [R_cdb]: the codec's records under the RocksDB / CDB configuration;
+   [grouped R dbl]: dbl lists a RocksDB store holding R (Proofs/LinkRdbDb.v; C03_store_grouped).
+   Guards: wf_file, loc_file_okb (field widths of % M 8 lines, no '!' line, no record tagged \000%),
+   maps_once (no two M / 8 lines for the same kind, name and wildcard flag), wf_subnets per map.
+   ================================================================================== *)
+From DnsV Require Spec.ClientLocation.
+From DnsV Require Import Proofs.ClientSpecLink Proofs.ClientDbFacts Proofs.ClientLink Proofs.ClientCdbLpm Proofs.ClientLookups.
+
+Theorem C03_map_choice_compiled_v1 : forall (sort : list point -> list point) o serial f,
+  Proofs.FileLevel.wf_file o serial f = true -> loc_file_okb o serial f = true -> maps_once (Proofs.FileLevel.parsed o serial f) ->
+  forall dbl kind n, kind = 77 \/ kind = 56 -> wf_labelsb n = true ->
+  grouped (R_rdb sort o serial f false) dbl ->
+  v1_find_map dbl [0; kind] (pack_labels n) =
+  Ok (option_map mapid_bytes (map_choice (Spec.ClientLocation.declared_maps (Proofs.FileLevel.parsed o serial f)) kind n)).
+Proof. exact find_map_v1. Qed.
+Print Assumptions C03_map_choice_compiled_v1.
+
+Theorem C03_map_choice_compiled_v2 : forall (sort : list point -> list point) o serial f,
+  Proofs.FileLevel.wf_file o serial f = true -> loc_file_okb o serial f = true -> maps_once (Proofs.FileLevel.parsed o serial f) ->
+  forall dbl kind n, kind = 77 \/ kind = 56 -> wf_labelsb n = true ->
+  grouped (R_rdb sort o serial f true) dbl ->
+  v2_find_map dbl [0; kind] (pack_labels n) =
+  Ok (option_map mapid_bytes (map_choice (Spec.ClientLocation.declared_maps (Proofs.FileLevel.parsed o serial f)) kind n)).
+Proof. exact find_map_v2. Qed.
+Print Assumptions C03_map_choice_compiled_v2.
+
+Theorem C03_map_choice_compiled_cdb : forall o serial f,
+  Proofs.FileLevel.wf_file o serial f = true -> loc_file_okb o serial f = true -> maps_once (Proofs.FileLevel.parsed o serial f) ->
+  forall stream kind n, kind = 77 \/ kind = 56 -> wf_labelsb n = true ->
+  Permutation stream (R_cdb o serial f) ->
+  cdb_find_map (S (length (pack_labels n))) stream [0; kind] (pack_labels n) true =
+  Ok (option_map mapid_bytes (map_choice (Spec.ClientLocation.declared_maps (Proofs.FileLevel.parsed o serial f)) kind n)).
+Proof. exact find_map_cdb. Qed.
+Print Assumptions C03_map_choice_compiled_cdb.
+
+(* the listing of a compiled RocksDB store is such a grouping *)
+Theorem C03_store_grouped : forall R (s : store) dbl, store_ok s ->
+  (forall k, Permutation (vals s k) (vals_of k R)) -> lists_store dbl s -> grouped R dbl.
+Proof. exact store_grouped. Qed.
+Print Assumptions C03_store_grouped.
+
+(* CDB, both prefix-set modes, on any Put stream of the codec's records *)
+Theorem C03_cdb_compiled_is_lpm : forall o serial f,
+  Proofs.FileLevel.wf_file o serial f = true -> loc_file_okb o serial f = true ->
+  (forall m, wf_subnets (Spec.ClientLocation.declared_subnets (Proofs.FileLevel.parsed o serial f) m)) ->
+  forall sep stream, Permutation stream (R_cdb o serial f) ->
+  forall m a bits ones plen, a < two128 -> client_plen a bits ones plen ->
+  cdb_get_location sep stream m (mkClient (Some a) bits ones) =
+  Ok (lpm_result (lpm (Model.Accum.file_nets (Proofs.FileLevel.parsed o serial f) m) (fam (clean_mask a plen)) (clean_mask a plen) plen)).
+Proof. exact cdb_compiled_is_lpm. Qed.
+Print Assumptions C03_cdb_compiled_is_lpm.
+
+(* the spec's subnets are C03's nets_of of the file's subnet lines *)
+Theorem C03_declared_subnets_nets : forall rs m, Spec.ClientLocation.declared_subnets rs m = Model.Accum.file_nets rs m.
+Proof. exact declared_subnets_nets. Qed.
+Print Assumptions C03_declared_subnets_nets.
